@@ -67,7 +67,7 @@ PROPS = {
         "race": True,
     },
     "C02": {
-        "level_text": "Billing arithmetic (floor(elapsed*price/interval) per active peer, client debited the exact sum, hosts/zero elapsed/empty peer set move nothing, slicing bounds for every schedule and unbounded prices, consecutive keep-alives bill consecutive disjoint intervals) are Lean theorems over the balance-manager and pool models; the models are compared with the real code (manager clock injected) on both drivers.",
+        "level_text": "Billing arithmetic (floor(elapsed*price/interval) per active peer, client debited the exact sum, hosts/zero elapsed/empty peer set move nothing, slicing bounds for every schedule and unbounded prices, consecutive keep-alives bill consecutive disjoint intervals) are Lean theorems over the balance-manager and pool models; the models are compared with the real code (manager clock injected) on both drivers. Also through the built pool binary started with generated --contract.price values (poolbin-flags), against the flag-parsing model Model/Ether.lean.",
         "level_note": POOL_NOTE,
         "lean_modules": ["Vipnode.Props.C02"],
         "streams": pool_streams(60, 600) + pool_streams(150, 2000, gen="pool-billing", prefix="billing") + [
@@ -77,7 +77,7 @@ PROPS = {
         "monitor": monitors.c02_binary,
     },
     "C03": {
-        "level_text": "The minimum-balance decision logic is stated outright in both directions (connect_refused_iff, update_cutoff_iff, hosts_never_refused, cutoff_disconnects) as Lean theorems over the balance-manager and pool models, which are compared with the real code on both drivers, with deposits injected through the contract proxy.",
+        "level_text": "The minimum-balance decision logic is stated outright in both directions (connect_refused_iff, update_cutoff_iff, hosts_never_refused, cutoff_disconnects) as Lean theorems over the balance-manager and pool models, which are compared with the real code on both drivers, with deposits injected through the contract proxy. Also through the built pool binary started with generated --contract.min-balance values (amounts with and without units, fractions, negatives, unparsable ones), against Model/Ether.lean (Props/C03E: no unit turns an amount into zero).",
         "level_note": POOL_NOTE,
         "lean_modules": ["Vipnode.Props.C03", "Vipnode.Props.C03E"],
         "streams": pool_streams(60, 600) + pool_streams(150, 2000, gen="pool-minbal", prefix="minbal") + [
@@ -119,7 +119,7 @@ PROPS = {
         "race": True,
     },
     "C08": {
-        "level_text": "reply_hosts_eligible, reply_count, whitelist_calls_bounded, error_iff_empty, full_supply, failed_hosts_left_out are Lean theorems about Pool.requestHosts for every store state, every store choice, every outcome of every whitelist call; the store's choice is validated against the ActiveHosts contract (C12) on every implementation call. The real pool is driven over fake host connections scripted to acknowledge, fail or hang.",
+        "level_text": "reply_hosts_eligible, reply_count, whitelist_calls_bounded, error_iff_empty, full_supply, failed_hosts_left_out are Lean theorems about Pool.requestHosts for every store state, every store choice, every outcome of every whitelist call; the store's choice is validated against the ActiveHosts contract (C12) on every implementation call. The real pool is driven over fake host connections scripted to acknowledge, fail or hang. Also with hosts behind the real transport (built binary, WebSocket) that refuse the instruction with an RPC error.",
         "level_note": POOL_NOTE + " The order in which acknowledgements arrive is not modelled (replies are compared as sets); the 5 s whitelist timeout is exercised with a shorter request deadline.",
         "lean_modules": ["Vipnode.Props.C08"],
         "streams": pool_streams(60, 600) + pool_streams(150, 1500, gen="pool-peers", prefix="peers") + [
@@ -159,7 +159,7 @@ PROPS = {
         "monitor": monitors.c11_expiry,
     },
     "C13": {
-        "level_text": "migrate_current_identity, migrate_newer_refused, migrate_preserves (from every supported format the result is the current format with nodes, peers, links, balances and trials unchanged), migrate_idempotent, reopen_identity, txn_all_or_nothing and acknowledged_survive (a crash leaves the state after the acknowledged operations or after one more, given badger's atomic durable commit), trial_never_both_nor_lost (in every committed state a linked node has no trial entry and linking never changes the ledger total) are Lean theorems about the persistence model. The real driver is run on disk: histories with close/reopen after random prefixes, a child process applying operations and killed with SIGKILL, databases prepared at formats 0, 1, 2 and 3 (raw version key), readers taking Stats snapshots while trial balances are migrated.",
+        "level_text": "migrate_current_identity, migrate_newer_refused, migrate_preserves (from every supported format the result is the current format with nodes, peers, links, balances and trials unchanged), migrate_idempotent, reopen_identity, txn_all_or_nothing and acknowledged_survive (a crash leaves the state after the acknowledged operations or after one more, given badger's atomic durable commit), trial_never_both_nor_lost (in every committed state a linked node has no trial entry and linking never changes the ledger total) are Lean theorems about the persistence model. The real driver is run on disk: histories with close/reopen after random prefixes, a child process applying operations and killed with SIGKILL, databases prepared at formats 0, 1, 2 and 3 (raw version key), readers taking Stats snapshots while trial balances are migrated. A partial, never acknowledged append at the end of the value log (what a kill during a write leaves) must not keep the store from opening (op torn); credits racing a link (conc linkrace; Props/C13L link_race_no_lost_credit).",
         "level_note": "Assumed, sampled by the kill stream: badger commits are atomic and durable, each store method is one transaction (the model's unit). Not modelled: OS / filesystem / fsync behaviour and badger internals (a SIGKILL leaves the page cache intact, so power-loss durability is outside what this sandbox can exercise).",
         "lean_modules": ["Vipnode.Props.C13", "Vipnode.Props.C13L"],
         "streams": [{"name": "persist-disk", "component": "persist", "cases": {"quick": 12, "thorough": 150}, "no_shrink": True},
@@ -169,7 +169,7 @@ PROPS = {
         "monitor": monitors.c13_persist,
     },
     "C14": {
-        "level_text": "An invariant of the pending-reply table (distinct slot ids; every live call has a slot marked as waited-on; buffered messages only for answered ids; live ids distinct) is proved for every honest execution - every schedule of any number of concurrent callers and handlers, replies in any order, cancellations at any point, any table limit (inv_step, inv_run). From it: live_slot_protected, serve_never_blocks, ids_unique, reply_routing (own reply, other calls untouched, also when the reply arrives before the caller waits), cancel_returns_ctx_error, late_reply_never_misdelivered, handled_exactly_once, callback_completes (a handler calling back waits only on its own slot). The real jsonrpc2.Remote is driven through a harness codec that is the scheduler (the harness plays peer and network) and through concurrent storms over a pipe pair with the production table limit.",
+        "level_text": "An invariant of the pending-reply table (distinct slot ids; every live call has a slot marked as waited-on; buffered messages only for answered ids; live ids distinct) is proved for every honest execution - every schedule of any number of concurrent callers and handlers, replies in any order, cancellations at any point, any table limit (inv_step, inv_run). From it: live_slot_protected, serve_never_blocks, ids_unique, reply_routing (own reply, other calls untouched, also when the reply arrives before the caller waits), cancel_returns_ctx_error, late_reply_never_misdelivered, handled_exactly_once, callback_completes (a handler calling back waits only on its own slot). The real jsonrpc2.Remote is driven through a harness codec that is the scheduler (the harness plays peer and network) and through concurrent storms over a pipe pair with the production table limit. Storms also with handlers that call back before answering, ping-pong recursions up to 80 deep, over Local and HTTP transports; reply and cancellation at the same instant.",
         "level_note": "Theorems are about Model/Rpc.lean, whose steps are the atomic regions of remote.go (r.mu critical sections, channel operations, the atomic id counter); the peer is honest (answers only issued ids, each at most once). Runtime behaviour the model cannot exhibit: goroutine scheduling and Go channel semantics are abstracted as atomic steps (supported by -race storms in the thorough tier).",
         "lean_modules": ["Vipnode.Props.C14"],
         "streams": [
@@ -180,7 +180,7 @@ PROPS = {
         "monitor": monitors.c14_rpc,
     },
     "C15": {
-        "level_text": "Theorems: the guards vipnode's own code places in front of every panicking Go operation on received data never let it panic (node_sig_total, address_sig_total, enode_id_total, call_total), a peer request never asks the store for a non-positive or request-sized allocation (active_hosts_limit_positive, active_hosts_alloc_bounded), request handling is total and answers every request with exactly one well-formed class, running code only for well-typed calls to registered methods (reply_well_formed); with C14 serve_never_blocks the read loop is never wedged by honest traffic. Differential fuzz: the real pool, payment, status and agent services, wired as the binary wires them, are fed structured hostile messages (correctly signed requests with hostile parameter values, every kind of bad signature, wrong arities and types, unknown names, odd ids, reply-shaped and non-message bytes) over real Remote connections in a separate process where a panic is an observable exit; after each message a second connection must still be served.",
+        "level_text": "Theorems: the guards vipnode's own code places in front of every panicking Go operation on received data never let it panic (node_sig_total, address_sig_total, enode_id_total, call_total), a peer request never asks the store for a non-positive or request-sized allocation (active_hosts_limit_positive, active_hosts_alloc_bounded), request handling is total and answers every request with exactly one well-formed class, running code only for well-typed calls to registered methods (reply_well_formed); with C14 serve_never_blocks the read loop is never wedged by honest traffic. Differential fuzz: the real pool, payment, status and agent services, wired as the binary wires them, are fed structured hostile messages (correctly signed requests with hostile parameter values, every kind of bad signature, wrong arities and types, unknown names, odd ids, reply-shaped and non-message bytes) over real Remote connections in a separate process where a panic is an observable exit; after each message a second connection must still be served. Also the other direction: a real agent over pool.Remote whose pool answers connect / keep-alive / peer calls with 18 odd reply shapes (agentreply); a registered sender's odd peer descriptions (regupdate); a flooded host that is then called (wedge).",
         "level_note": "Partial by nature: the theorems cover the guards in vipnode's own code (Model/Guards.lean, Model/Server.lean); panics inside encoding/json, reflect, net/url, go-ethereum crypto and badger are reachable only by the fuzz stream, which samples. A reply carrying `result: null` next to an error counts as well-formed (the property asks for a result or an error).",
         "lean_modules": ["Vipnode.Props.C15"],
         "streams": [
@@ -201,7 +201,7 @@ PROPS = {
         ],
     },
     "C17": {
-        "level_text": "chunking_independent (what the persistent-decoder codec delivers depends only on the concatenation of the reads) and stream_exactly_once (for every sequence of framed messages and every chunking, exactly the written messages, in order), locked_writers_do_not_interleave, ws_one_message_per_frame are Lean theorems about the byte-level reader model, by induction over unbounded streams; per_message_reader_counterexample keeps the witness of the repaired defect. The model is compared with the real IOCodec on byte streams produced by the real WriteMessage and cut at generated positions; gorilla (concurrent writers) and gobwas codecs are run over loopback WebSocket connections.",
+        "level_text": "chunking_independent (what the persistent-decoder codec delivers depends only on the concatenation of the reads) and stream_exactly_once (for every sequence of framed messages and every chunking, exactly the written messages, in order), locked_writers_do_not_interleave, ws_one_message_per_frame are Lean theorems about the byte-level reader model, by induction over unbounded streams; per_message_reader_counterexample keeps the witness of the repaired defect. The model is compared with the real IOCodec on byte streams produced by the real WriteMessage and cut at generated positions; gorilla (concurrent writers) and gobwas codecs are run over loopback WebSocket connections. WebSocket runs include encoded lengths walking byte by byte across the decoder's refill sizes and runs in which one library writes and the other reads.",
         "level_note": "Theorems are about Model/Codec.lean (brace depth outside string literals, escapes); that encoding/json's decoder finds the same message ends is checked differentially on generated messages (braces/escapes/unicode inside strings, nested params, 0 to 5000-byte payloads). Trusted: encoding/json, gorilla/gobwas framing, the write mutex of the gorilla codec (supported by -race runs of the concurrent writer stream in the thorough tier).",
         "lean_modules": ["Vipnode.Props.C17"],
         "streams": [
@@ -226,7 +226,7 @@ PROPS = {
         "monitor": monitors.c18_agent,
     },
     "C20": {
-        "level_text": "at_most_one_loop (after every sequence and interleaving of start/stop/wait/tick events, including racing starts), second_start_refused, running_refuses_start, failed_start_leaves_nothing, stop_ends_loop_wait_returns, failed_keepalive_ends_loop, one_keepalive_per_tick are Lean theorems about the life-cycle state machine, by an invariant preserved by every atomic step; accepted_below_expiry / expiry_refused are re-proved on every run on the --update-interval values probed on the built binary. The real agent.Agent is driven through generated life-cycle histories (scripted pool failing at connect / first update / a later keep-alive, two concurrent Starts, keep-alives counted over a window of intervals).",
+        "level_text": "at_most_one_loop (after every sequence and interleaving of start/stop/wait/tick events, including racing starts), second_start_refused, running_refuses_start, failed_start_leaves_nothing, stop_ends_loop_wait_returns, failed_keepalive_ends_loop, one_keepalive_per_tick are Lean theorems about the life-cycle state machine, by an invariant preserved by every atomic step; accepted_below_expiry / expiry_refused are re-proved on every run on the --update-interval values probed on the built binary. The real agent.Agent is driven through generated life-cycle histories (scripted pool failing at connect / first update / a later keep-alive, two concurrent Starts, keep-alives counted over a window of intervals). Including two concurrent stops and a stop pending while the in-flight keep-alive fails (stop_blocks_only_while_starting, two_stops_both_return, stop_pending_when_loop_dies).",
         "level_note": "Theorems are about Model/Agent.lean `lifeStep` (atomic steps: the mutex-protected check-and-set of `started`, loop start, tick, stop, wait). Partial: wall-clock cadence is runtime behaviour - the model says one keep-alive per tick, the harness checks that the number of keep-alives in a window of 10 intervals is that of one loop (two loops give twice as many). The interval clause is a finite probe of the binary (grid around the 5 s and 120 s bounds), re-proved by `decide`.",
         "lean_modules": ["Vipnode.Props.C20"],
         "monitor": monitors.c20_life,
